@@ -238,7 +238,7 @@ class C13(PropertyCheck):
     drivers = ["drv_transpile"]
     theorems = ["QipVerif.C13." + t for t in (
         "source_is_repaired", "native_valid", "rule_stays_on_qubits", "rule_shapes", "resolve_stays_on_qubits",
-        "transpile_native", "transpile_coupled", "transpile_coupled_partial", "transpile_refuses", "routing_stage_den",
+        "transpile_native", "transpile_coupled", "transpile_coupled_partial", "transpile_refuses", "transpile_accepts", "routing_stage_den",
         "transpile_den", "transpile_den_partial",
         "C13_counterexample_toffoli_linear", "C13_counterexample_toffoli_ring", "C13_counterexample_fredkin_scqubits",
         "toffoli_repaired")]
@@ -251,8 +251,8 @@ class C13(PropertyCheck):
                   "are decomposed before routing), for every register size N, the four devices and every circuit of library "
                   "gates on distinct in-range qubits: the output contains only native gates and GLOBALPHASE/IDLE markers; any "
                   "two distinct qubits of any output gate are directly coupled (neighbours on the open chain, neighbours or "
-                  "the wrap pair on the ring, any pair through the cavity); a circuit of expressible gates is never refused and "
-                  "a circuit with an inexpressible gate always is; the unitary over C (denG: ordered product of the embedded "
+                  "the wrap pair on the ring, any pair through the cavity); a circuit is refused iff it contains a gate whose name "
+                  "the native stage refuses (transpile_refuses / transpile_accepts); the unitary over C (denG: ordered product of the embedded "
                   "library matrices, global phase included) is preserved for every valuation of the symbolic angles - the "
                   "decomposition stages by C03.resolve_den_partial, the routing stage by C07's toChain_den_C transported along "
                   "the conversion of gate types (routing_stage_den); no hypothesis about matrices is left. The code as found "
